@@ -30,7 +30,7 @@ DivisorInv == /\ kind = "assertion"  => AssertionDivisorOK(a, n) /\ WellFormed(a
               /\ kind = "candidate"  => RefusalOK(a, n)
 
 Others == WellFormedSet(n, {0, 1})
-OverlapInv == (kind = "assertion" /\ n <= PairMax) => \A b \in Others : OverlapOK(a, b, n)
+OverlapInv == (kind = "assertion" /\ n <= PairMax) => \A b \in Others : OverlapOK(a, b, n) /\ GroupingOK(a, b, n)
 
 \* the b's that a overlaps with, by the declarative definition (what the harness must observe)
 OverlapRow == {b \in Others : b.col = a.col /\ StepsOf(a, n) \cap StepsOf(b, n) # {}}
